@@ -268,7 +268,7 @@ def pushA {σ} [Inhabited σ] (stack : Array σ) (top : Nat) (v : σ) : Option (
   if top < stack.size then some (stack.set! top v) else none
 
 inductive ActsRA (σ τ : Type)
-  | stop (res : Result τ)
+  | stop (res : Result τ) (stack : Array σ)
   | next (tgt : Option σ) (stack : Array σ) (top : Nat) (r : Regs τ)
 
 /-- `hv k i` = content of slot `i` after the `k`-th handler call returned (a re-entrant use of the same
@@ -282,46 +282,45 @@ def execActsA {σ τ} [Inhabited σ] (M : PDM σ) (data : Bytes) (h : Handler τ
     List (Act σ) → Option σ → Array σ → Nat → Regs τ → ActsRA σ τ
   | [], tgt, stack, top, r => .next tgt stack top r
   | .s a :: rest, tgt, stack, top, r =>
+    let stack' := if a.isHandler then applyHavoc hv r.ncalls stack else stack
     match execSimple data M.hasField h a r with
-    | .stop res => .stop res
-    | .cont r' =>
-      let stack' := if a.isHandler then applyHavoc hv r.ncalls stack else stack
-      execActsA M data h hv rest tgt stack' top r'
+    | .stop res => .stop res stack'
+    | .cont r' => execActsA M data h hv rest tgt stack' top r'
   | .call limit rs en :: rest, _, stack, top, r =>
     if limit && top == M.maxDepth then
-      .stop ({ r with p := wrap64 (r.p + 1), err := some .maxDepth }).finish
+      .stop ({ r with p := wrap64 (r.p + 1), err := some .maxDepth }).finish stack
     else
       match pushA stack top rs with
-      | none => .stop (r.stop .panic r.p)
+      | none => .stop (r.stop .panic r.p) stack
       | some stack' => execActsA M data h hv rest (some en) stack' (top + 1) r
   | .ret :: rest, _, stack, top, r =>
     match top with
-    | 0 => .stop (r.stop .panic r.p)
+    | 0 => .stop (r.stop .panic r.p) stack
     | top'+1 =>
       match stack[top']? with
-      | none => .stop (r.stop .panic r.p)
+      | none => .stop (r.stop .panic r.p) stack
       | some cs => execActsA M data h hv rest (some cs) stack top' r
 
 def loopA {σ τ} [Inhabited σ] (M : PDM σ) (data : Bytes) (h : Handler τ) (hv : Havoc σ) :
-    Nat → σ → Array σ → Nat → Regs τ → Result τ
-  | 0, _, _, _, r => r.stop .fuel r.p
+    Nat → σ → Array σ → Nat → Regs τ → Result τ × Array σ
+  | 0, _, stack, _, r => (r.stop .fuel r.p, stack)
   | fuel+1, cs, stack, top, r =>
     match getByte data r.p with
-    | none => r.stop .panic r.p
+    | none => (r.stop .panic r.p, stack)
     | some b =>
       let (acts, tgt) := M.step cs b
       match execActsA M data h hv acts tgt stack top r with
-      | .stop res => res
-      | .next none _ _ r' => r'.finish
+      | .stop res stack' => (res, stack')
+      | .next none stack' _ r' => (r'.finish, stack')
       | .next (some n) stack' top' r' =>
         let r'' := { r' with p := wrap64 (r'.p + 1) }
-        if r''.p == (data.size : Int) then runEof data M.hasField h (M.eof n) r''
+        if r''.p == (data.size : Int) then (runEof data M.hasField h (M.eof n) r'', stack')
         else loopA M data h hv fuel n stack' top' r''
 
 def runA {σ τ} [Inhabited σ] (M : PDM σ) (data : Bytes) (h : Handler τ) (hv : Havoc σ) (stack0 : Array σ)
-    (dst : Bytes) (hs : τ) : Result τ :=
+    (dst : Bytes) (hs : τ) : Result τ × Array σ :=
   let r := initRegs dst hs
-  if data.size == 0 then runEof data M.hasField h (M.eof M.start) r
+  if data.size == 0 then (runEof data M.hasField h (M.eof M.start) r, stack0)
   else loopA M data h hv (fuelFor data) M.start stack0 0 r
 
 /-- a handler that is never called (machines without handler actions) -/
